@@ -176,4 +176,315 @@ theorem runKids_noMerge (cfg cfg' : Cfg) (fails : Nat → Bool) :
   termination_by kids => sizeOf kids
 end
 
+
+/-! ### the repaired merge leaves the shape of the graph alone -/
+
+theorem shapeOf_setOwn (n : Node) (o : Own) (h : o.shape = n.own.shape) :
+    shapeOf (n.setOwn o) = shapeOf n := by
+  cases n <;> simp [Node.setOwn, shapeOf, Node.own] at * <;> exact h
+
+@[simp] theorem shapeOf_withIns (n : Node) (i : List Val) : shapeOf (n.withIns i) = shapeOf n := by
+  cases n <;> rfl
+
+@[simp] theorem withIns_gen (n : Node) (i : List Val) : (n.withIns i).own.gen = n.own.gen := by
+  cases n <;> rfl
+
+@[simp] theorem allOk_withIns (n : Node) (i : List Val) : allOk (n.withIns i) = allOk n := by
+  cases n <;> rfl
+
+theorem shapeOfKids_append (a b : List Node) : shapeOfKids (a ++ b) = shapeOfKids a ++ shapeOfKids b := by
+  induction a with
+  | nil => simp [shapeOfKids]
+  | cons x xs ih => simp [shapeOfKids, ih]
+
+@[simp] theorem rewireAll_nil (ks : List Node) : rewireAll [] ks = ks := by simp [rewireAll]
+
+theorem KS.push_bumps_same (st : KS) (old n : Node) (ok err : Bool) (h : n.own.gen = old.own.gen) :
+    (st.push old n ok err).bumps = st.bumps := by
+  simp [KS.push, h]
+
+mutual
+theorem shapeOf_run (cfg : Cfg) (fails : Nat → Bool) (hIO : cfg.keepIO = true) (hKE : cfg.keepKidExe = true)
+    (hDD : cfg.dropDetached = true) :
+    ∀ (n : Node) (mode : Mode) (ins : List Val), shapeOf (run cfg fails mode ins n) = shapeOf n
+  | .fn o fid, mode, ins => by
+    simp only [run, shapeOf, Own.leafRun]
+    split <;> rfl
+  | .comp o k links kids, mode, ins => by
+    have hk : ∀ m, shapeOfKids (runKids cfg fails m ins links KS.init kids).pre = shapeOfKids kids ∧
+        (runKids cfg fails m ins links KS.init kids).bumps = [] := by
+      intro m
+      have := shapeOfKids_runKids cfg fails hIO hKE hDD kids m ins links KS.init
+      simpa [KS.init, shapeOfKids] using this
+    simp only [run]
+    by_cases hb : (place mode o.exe).byValue = true
+    · simp only [hb, if_true, mergeOrFail]
+      split
+      · rfl
+      · obtain ⟨h1, h2⟩ := hk (.honour true)
+        simp only [mergeBack, hIO, hKE, hDD, if_true, h2, rewireAll_nil, shapeOf, h1]
+        rfl
+    · obtain ⟨h1, h2⟩ := hk mode
+      simp only [hb, Bool.false_eq_true, if_false, h2, rewireAll_nil, shapeOf, h1]
+      rfl
+  termination_by n => sizeOf n
+
+theorem shapeOfKids_runKids (cfg : Cfg) (fails : Nat → Bool) (hIO : cfg.keepIO = true)
+    (hKE : cfg.keepKidExe = true) (hDD : cfg.dropDetached = true) :
+    ∀ (kids : List Node) (mode : Mode) (pins : List Val) (links : List (Option Ref)) (st : KS),
+      shapeOfKids (runKids cfg fails mode pins links st kids).pre = shapeOfKids st.pre ++ shapeOfKids kids ∧
+      (runKids cfg fails mode pins links st kids).bumps = st.bumps
+  | [], _, _, _, st => by simp [runKids, shapeOfKids]
+  | n :: rest, mode, pins, links, st => by
+    rw [runKids]
+    split
+    · rename_i i hp
+      obtain ⟨h1, h2⟩ := shapeOfKids_runKids cfg fails hIO hKE hDD rest mode pins links
+        (st.push n (n.withIns i) false false)
+      rw [h1, h2, KS.push_bumps_same _ _ _ _ _ (by simp)]
+      simp [shapeOfKids_append, shapeOfKids]
+    · rename_i i hp
+      obtain ⟨h1, h2⟩ := shapeOfKids_runKids cfg fails hIO hKE hDD rest mode pins links
+        (st.push n (n.withIns i) false true)
+      rw [h1, h2, KS.push_bumps_same _ _ _ _ _ (by simp)]
+      simp [shapeOfKids_append, shapeOfKids]
+    · rename_i i hp
+      obtain ⟨h1, h2⟩ := shapeOfKids_runKids cfg fails hIO hKE hDD rest mode pins links
+        (st.push n (run cfg fails mode i n) (!(run cfg fails mode i n).own.failed)
+          (run cfg fails mode i n).own.failed)
+      rw [h1, h2, KS.push_bumps_same _ _ _ _ _ (run_gen_of_not_byValue cfg fails mode i n (Or.inr hIO))]
+      simp [shapeOfKids_append, shapeOfKids, shapeOf_run cfg fails hIO hKE hDD n mode i]
+  termination_by kids => sizeOf kids
+end
+
+
+/-! ### nothing is left running -/
+
+@[simp] theorem idle_withIns (n : Node) (i : List Val) : idle (n.withIns i) = idle n := by
+  cases n <;> rfl
+
+theorem idleKids_append (a b : List Node) : idleKids (a ++ b) = (idleKids a && idleKids b) := by
+  induction a with
+  | nil => simp [idleKids]
+  | cons x xs ih => simp [idleKids, ih, Bool.and_assoc]
+
+theorem idle_setOwn (n : Node) (o : Own) (h : o.running = n.own.running) : idle (n.setOwn o) = idle n := by
+  cases n <;> simp [Node.setOwn, idle, Node.own] at * <;> simp [h]
+
+theorem idleKids_rewireAll (bumps : List (Nat × Nat)) (ks : List Node) :
+    idleKids (rewireAll bumps ks) = idleKids ks := by
+  unfold rewireAll
+  split
+  · rfl
+  · induction ks with
+    | nil => rfl
+    | cons x xs ih =>
+      simp only [List.map_cons, idleKids, ih]
+      rw [idle_setOwn]; rfl
+
+mutual
+theorem idle_stripDeep : ∀ (n : Node), idle (stripDeep n) = idle n
+  | .fn o fid => by simp [stripDeep, idle]
+  | .comp o k l ks => by simp [stripDeep, idle, idleKids_stripKids ks]
+theorem idleKids_stripKids : ∀ (ks : List Node), idleKids (stripDeep.stripKids ks) = idleKids ks
+  | [] => by simp [stripDeep.stripKids, idleKids]
+  | n :: ns => by simp [stripDeep.stripKids, idleKids, idle_stripDeep n, idleKids_stripKids ns]
+end
+
+mutual
+theorem idle_run (cfg : Cfg) (fails : Nat → Bool) :
+    ∀ (n : Node) (mode : Mode) (ins : List Val), idle n = true → idle (run cfg fails mode ins n) = true
+  | .fn o fid, mode, ins, _ => by
+    simp only [run, idle, Own.leafRun]
+    split <;> rfl
+  | .comp o k links kids, mode, ins, h => by
+    simp only [idle, Bool.and_eq_true] at h
+    have hk := fun m => idleKids_runKids cfg fails kids m ins links KS.init (by simp [KS.init, idleKids]) h.2
+    simp only [run]
+    by_cases hb : (place mode o.exe).byValue = true
+    · simp only [hb, if_true, mergeOrFail]
+      split
+      · simp [idle, h.2]
+      · have hkk : idleKids (if cfg.keepKidExe = true then
+              rewireAll (runKids cfg fails (.honour true) ins links KS.init kids).bumps
+                (runKids cfg fails (.honour true) ins links KS.init kids).pre
+            else stripDeep.stripKids (rewireAll (runKids cfg fails (.honour true) ins links KS.init kids).bumps
+                (runKids cfg fails (.honour true) ins links KS.init kids).pre)) = true := by
+          split <;> simp [idleKids_rewireAll, idleKids_stripKids, hk]
+        simp only [mergeBack]
+        split <;> simp [idle, hkk]
+    · simp [hb, idle, idleKids_rewireAll, hk]
+  termination_by n => sizeOf n
+
+theorem idleKids_runKids (cfg : Cfg) (fails : Nat → Bool) :
+    ∀ (kids : List Node) (mode : Mode) (pins : List Val) (links : List (Option Ref)) (st : KS),
+      idleKids st.pre = true → idleKids kids = true →
+      idleKids (runKids cfg fails mode pins links st kids).pre = true
+  | [], _, _, _, st, h, _ => by simpa [runKids] using h
+  | n :: rest, mode, pins, links, st, h, hk => by
+    simp only [idleKids, Bool.and_eq_true] at hk
+    rw [runKids]
+    split
+    · exact idleKids_runKids cfg fails rest mode pins links _
+        (by simp [idleKids_append, idleKids, h, hk.1]) hk.2
+    · exact idleKids_runKids cfg fails rest mode pins links _
+        (by simp [idleKids_append, idleKids, h, hk.1]) hk.2
+    · rename_i i hp
+      exact idleKids_runKids cfg fails rest mode pins links _
+        (by simp [idleKids_append, idleKids, h, idle_run cfg fails n mode i hk.1]) hk.2
+  termination_by kids => sizeOf kids
+end
+
+
+/-! ### the input lock -/
+
+def hasData (e : Option Val) : Bool := match e with | some v => !isNd v | none => false
+
+theorem fetchTop_noData (ext : List (Option Val))
+    (h : (ext.any fun e => match e with | some v => !isNd v | none => false) = false) :
+    ∀ (k : Nat) (acc : Node), fetchTop ext k acc = acc
+  | 0, acc => rfl
+  | k + 1, acc => by
+    rw [fetchTop, fetchTop_noData ext h k acc]
+    split
+    · rename_i v hv
+      have hm : some v ∈ ext := List.mem_of_getElem? hv
+      have := (List.any_eq_false.mp h) (some v) hm
+      simp only [Bool.not_eq_true, Bool.not_eq_false'] at this
+      simp [this]
+    · rfl
+
+theorem edit_locked (s : Sess) (e : Edit) (h : lockedTop s.node = true) :
+    (edit s e).1.node = s.node ∧ (edit s e).1.job = s.job := by
+  cases e with
+  | setIn k v => simp [edit, h]
+  | fetch =>
+    simp only [edit, h, Bool.true_and]
+    split
+    · exact ⟨rfl, rfl⟩
+    · rename_i hn
+      simp only [Bool.not_eq_true] at hn
+      exact ⟨fetchTop_noData s.ext hn _ _, rfl⟩
+  | connect k v => exact ⟨rfl, rfl⟩
+  | disconnect k => exact ⟨rfl, rfl⟩
+  | rerun =>
+    simp only [edit, h, Bool.true_and]
+    split
+    · exact ⟨rfl, rfl⟩
+    · rename_i hn
+      simp only [Bool.not_eq_true] at hn
+      exact ⟨fetchTop_noData s.ext hn _ _, rfl⟩
+
+theorem edits_locked : ∀ (es : List Edit) (s : Sess), lockedTop s.node = true →
+    (edits s es).node = s.node ∧ (edits s es).job = s.job
+  | [], s, _ => ⟨rfl, rfl⟩
+  | e :: es, s, h => by
+    obtain ⟨h1, h2⟩ := edit_locked s e h
+    obtain ⟨h3, h4⟩ := edits_locked es (edit s e).1 (by rw [h1]; exact h)
+    exact ⟨by rw [edits, h3, h1], by rw [edits, h4, h2]⟩
+
+/-- completion only looks at the node and the job -/
+theorem complete_node_congr (cfg : Cfg) (fails : Nat → Bool) (s t : Sess) (hn : s.node = t.node)
+    (hj : s.job = t.job) : (complete cfg fails s).1.node = (complete cfg fails t).1.node ∧
+      (complete cfg fails s).2 = (complete cfg fails t).2 := by
+  unfold complete
+  rw [hn, hj]
+  split
+  · exact ⟨hn ▸ rfl, rfl⟩
+  · split
+    · exact ⟨rfl, rfl⟩
+    · exact ⟨hn ▸ rfl, rfl⟩
+
+/-- `running` is not read by a composite's run -/
+theorem run_comp_running (cfg : Cfg) (fails : Nat → Bool) (mode : Mode) (ins : List Val) (o : Own) (k : CK)
+    (l : List (Option Ref)) (ks : List Node) (b : Bool) :
+    run cfg fails mode ins (.comp { o with running := b } k l ks) = run cfg fails mode ins (.comp o k l ks) := by
+  simp only [run]
+  split
+  · simp only [mergeOrFail, mergeBack]
+  · rfl
+
+
+/-! ### submission -/
+
+theorem submit_comp (snap : Bool) (o : Own) (k : CK) (l : List (Option Ref)) (ks : List Node)
+    (hr : ready (.comp o k l ks) = true) :
+    (submit snap ⟨.comp o k l ks, none, []⟩).1.node = .comp { o with running := true } k l ks ∧
+    (submit snap ⟨.comp o k l ks, none, []⟩).2 = .future ∧
+    (submit snap ⟨.comp o k l ks, none, []⟩).1.job =
+      some (if o.exe.byValue then .copy (if snap then some (.comp { o with running := true } k l ks) else none)
+            else .shared) := by
+  have hf : ∀ m, fetchTop [] m (.comp o k l ks) = .comp o k l ks :=
+    fun m => fetchTop_noData [] (by simp) m _
+  simp [submit, hf, hr, Node.setOwn, Node.own]
+
+theorem submit_fn (snap : Bool) (o : Own) (fid : Nat) (hr : ready (.fn o fid) = true) :
+    (submit snap ⟨.fn o fid, none, []⟩).1.node = .fn { o with running := true } fid ∧
+    (submit snap ⟨.fn o fid, none, []⟩).2 = .future ∧
+    (submit snap ⟨.fn o fid, none, []⟩).1.job = some (.leaf o.ins) := by
+  have hf : ∀ m, fetchTop [] m (.fn o fid) = .fn o fid :=
+    fun m => fetchTop_noData [] (by simp) m _
+  simp [submit, hf, hr, Node.setOwn, Node.own]
+
+/-- submission followed by completion is `run` (the job is the object itself, a snapshot of it, or a late copy
+of it: all the same when nothing was changed in between) -/
+theorem finish_submitted_comp (cfg : Cfg) (fails : Nat → Bool) (snap : Bool) (o : Own) (k : CK)
+    (l : List (Option Ref)) (ks : List Node) :
+    finish cfg fails
+      (if o.exe.byValue then .copy (if snap then some (.comp { o with running := true } k l ks) else none)
+       else .shared) (.comp { o with running := true } k l ks)
+    = some (run cfg fails (.honour false) o.ins (.comp o k l ks)) := by
+  by_cases hb : o.exe.byValue = true
+  · cases snap <;>
+      simp only [hb, if_true, finish, run, place, mergeOrFail, mergeBack, Bool.false_eq_true, if_false]
+  · have hb' : o.exe.byValue = false := by simpa using hb
+    simp only [hb', Bool.false_eq_true, if_false, finish]
+    rw [run_comp_running]
+
+/-! ### concrete graphs (witnesses of the pinned behaviour, non-vacuity examples) -/
+
+namespace Ex
+
+def c (k : Nat) : Val := app (1000 + k) []
+def dflt : Val := app 999 []
+
+def own0 (label : Nat) (ins : List Val) : Own :=
+  { label, ins, out := nd, running := false, failed := false, exe := .none, hasParent := true,
+    detached := false, gen := 0, ioMine := true, outLinked := false, inRefs := ins.map fun _ => none,
+    outRefs := [] }
+
+def rf (p s : Nat) : Option Ref := some ⟨p, 0, s⟩
+
+/-- the macro `M2(x, y): p = F1(a=x, b=y); q = F2(a=p, b=x); return q` — `x` is used twice and keeps its
+UserInput child, `y` is used once and is linked straight to `p.b` -/
+def m2 (ck : CK) (label : Nat) (x y : Val) (e : Exe) (xr yr : Option Ref) (outRefs : List Ref)
+    (lnk : Bool) : Node :=
+  .comp { own0 label [x, y] with exe := e, inRefs := [xr, yr], outRefs, outLinked := lnk } ck [rf 0 0, rf 1 1]
+    [ .fn { own0 10 [x] with outRefs := [⟨1, 0, 0⟩, ⟨2, 0, 1⟩] } 0,
+      .fn { own0 11 [dflt, y, dflt] with inRefs := [rf 0 0, none, none], outRefs := [⟨2, 0, 0⟩] } 1,
+      .fn { own0 12 [dflt, dflt, dflt] with inRefs := [rf 1 0, rf 0 0, none], outLinked := true } 2 ]
+
+/-- workflow `a = F20(c1); m = M2(x=a, y=c2) on executor e; z = F6(a=m, b=a)` -/
+def wfA (ck : CK) (e : Exe) : Node :=
+  .comp { own0 100 [] with hasParent := false } .wf []
+    [ .fn { own0 1 [c 1, dflt, dflt] with outRefs := [⟨1, 0, 0⟩, ⟨2, 0, 1⟩] } 20,
+      m2 ck 2 dflt (c 2) e (rf 0 0) none [⟨2, 0, 0⟩] false,
+      .fn { own0 3 [dflt, dflt, dflt] with inRefs := [rf 1 0, rf 0 0, none] } 6 ]
+
+/-- outer macro `MO(x): inner = M2(x=x, y=c7) on executor e; return inner` -/
+def mo (e : Exe) : Node :=
+  .comp { own0 200 [c 1] with hasParent := false } .macro [rf 0 0]
+    [ m2 .macro 1 (c 1) (c 7) e none none [] true ]
+
+/-- a parentless macro on an executor whose child `p` has a live executor of its own -/
+def mk (e : Exe) : Node :=
+  match m2 .macro 5 (c 1) (c 2) e none none [] false with
+  | .comp o k l (ui :: .fn po pf :: rest) =>
+    .comp { o with hasParent := false } k l (ui :: .fn { po with exe := .inst false } pf :: rest)
+  | n => n
+
+def nf : Nat → Bool := fun _ => false
+
+end Ex
+
 end PwVerif.Remote
